@@ -635,7 +635,7 @@ package cache
 // The failure cache of a Failover: present iff FailedUpdateTTL > -1; a well-formed ShardedMap.
 //@ def errsOK(f) := f.config.FailedUpdateTTL > -1 ==> f.Errors != nil && f.Errors.shardedMap != nil && repOK(f.Errors.shardedMap)
 //@     && f.Errors.shardedMap.t.Config.ExpirationJitter <= 1.0 && f.Errors.shardedMap.t.Config.TimeToLive != 0
-//@     && abs(f.Errors.shardedMap.t.Config.TimeToLive) <= 1577880000000000000
+//@     && abs(f.Errors.shardedMap.t.Config.TimeToLive) <= 1577880000000000000 && f.config.FailedUpdateTTL <= 1577880000000000000
 //@     && f.Errors.shardedMap.t.expirationsSet >= 0 && f.Errors.shardedMap.t.expirationsSet < 4611686018427387904
 //@ def failoverOK(f) := f.backend != nil && errsOK(f)
 
@@ -711,7 +711,8 @@ package cache
 // object (C06); on success the value is written with that same context and returned; on failure the error is
 // cached iff FailedUpdateTTL > -1 (C05) and returned; cache_build once, cache_failed iff the builder failed (C18).
 
-// C05.build.fail.ttl: the failure is written to the failure cache under a context that carries no TTL of its own, so
+// C05.build.fail.ttl: the failure is written to the failure cache under a context that carries no TTL of its own (or
+// FailedUpdateTTL itself, an equally valid way to write it), so
 // it lives for that cache's TimeToLive - FailedUpdateTTL by C05.new.errttl, within the jitter by C10.write.* - and not
 // for the TTL the caller or the builder attached to the value (finding F23).
 //@ func (*Failover).doBuild
@@ -744,7 +745,7 @@ package cache
 //@       && metric(MetricDelete) == old(metric(MetricDelete))
 //@   ensures [C18.build.nostat] f.stat == nil ==> noMetric()
 //@   ensures [C05.build.errs.repok] (f.config.FailedUpdateTTL > -1 ==> repOK(f.Errors.shardedMap)) && errorsOnly(f)
-//@   oncall Write [C05.build.fail.ttl] ttlOf(callarg1) == 0
+//@   oncall Write [C05.build.fail.ttl] ttlOf(callarg1) == 0 || ttlOf(callarg1) == f.config.FailedUpdateTTL
 //@   replayfor C05.build.fail.ttl failttl
 //@   modifies @builder @backendwrite @stat @log @clock @errcache H|time.Duration|*
 
@@ -864,7 +865,7 @@ package cache
 
 //@ def errsOKOf(f) := f.config.FailedUpdateTTL > -1 ==> f.Errors != nil && f.Errors.shardedMapOf != nil && repOK(f.Errors.shardedMapOf)
 //@     && f.Errors.shardedMapOf.t.Config.ExpirationJitter <= 1.0 && f.Errors.shardedMapOf.t.Config.TimeToLive != 0
-//@     && abs(f.Errors.shardedMapOf.t.Config.TimeToLive) <= 1577880000000000000
+//@     && abs(f.Errors.shardedMapOf.t.Config.TimeToLive) <= 1577880000000000000 && f.config.FailedUpdateTTL <= 1577880000000000000
 //@     && f.Errors.shardedMapOf.t.expirationsSet >= 0 && f.Errors.shardedMapOf.t.expirationsSet < 4611686018427387904
 //@ def failoverOKOf(f) := f.backend != nil && errsOKOf(f)
 //@ def errorsOnlyOf(f) := f.config.FailedUpdateTTL > -1 ==>
@@ -937,7 +938,7 @@ package cache
 //@       && metric(MetricDelete) == old(metric(MetricDelete))
 //@   ensures [C18.build.nostat] f.stat == nil ==> noMetric()
 //@   ensures [C05.build.errs.repok] (f.config.FailedUpdateTTL > -1 ==> repOK(f.Errors.shardedMapOf)) && errorsOnlyOf(f)
-//@   oncall Write [C05.build.fail.ttl] ttlOf(callarg1) == 0
+//@   oncall Write [C05.build.fail.ttl] ttlOf(callarg1) == 0 || ttlOf(callarg1) == f.config.FailedUpdateTTL
 //@   replayfor C05.build.fail.ttl failttl
 //@   modifies @builder @backendwriteof @stat @log @clock @errcacheof H|time.Duration|*
 
